@@ -196,40 +196,85 @@ def parse_errors(s):
     return out
 
 
-def classify(lang, err, table_fields):
-    """Stable key of a failing-input class: <lang>:<what>:<shape>, world-specific names abstracted away."""
+def _shape(s):
+    """World-specific names abstracted away: leading [..] groups kept (digits -> N), interface -> <iface>, names -> <name>."""
+    m = re.match(r"^((?:\[[^\]]*\])*)(.*)$", s)
+    br = re.sub(r"\d+", "N", m.group(1))
+    rest = m.group(2)
+    if rest.startswith("cabi_post_"):
+        return br + "cabi_post_" + _shape(rest[len("cabi_post_"):])
+    if "#" in rest:
+        return br + "<iface>#" + _shape(rest.split("#", 1)[1])
+    if rest == "":
+        return br
+    return br + ("<snake_name>" if "_" in rest else "<name>")
+
+
+PAYLOAD = re.compile(r"^(\[async-lower\])?\[(future|stream)-([a-z-]+?)-(\d+|unit)\](.*)$")
+PAYLOAD_OPS = {"new", "read", "write", "cancel-read", "cancel-write", "drop-readable", "drop-writable"}
+ASYNC_PRE = re.compile(r"^(\[async-lower\]|\[async-lift\]|\[callback\]\[async-lift\]|\[async-lift-stackful\])")
+
+
+def classify(lang, err, w, declared_exports):
+    """Stable key of a failing-input class: world-specific names are abstracted away, everything else is kept."""
     k, f = err["kind"], err["fields"]
+    names = w["_names"]
     if k == "unknown":
         dir_, module, field = f[0], f[1], f[2]
-        if "#[dtor]" in field and field.replace("_", "-") in table_fields:
+        if dir_ == "E" and "#[dtor]" in field and "_" in field and ("E", "", field.replace("_", "-")) in names:
             return "%s:[dtor]:snake-name" % lang
-        m = re.match(r"((?:\[[a-z-]+\])*)", field)
-        pre = m.group(1)
-        m2 = re.match(r"\[(future|stream)-([a-z-]+)-(\d+|unit)\]", field[len("[async-lower]"):] if field.startswith("[async-lower]") else field)
-        if m2:
-            return "%s:unknown-import:%s[%s-%s-N]" % (lang, "[async-lower]" if field.startswith("[async-lower]") else "", m2.group(1), m2.group(2))
-        if pre in ("[async-lower]", "[async-lift]", "[callback][async-lift]", "[async-lift-stackful]") and \
-                (field[len(pre):] in table_fields or any(t[1] == module and t[2] == field[len(pre):] for t in table_fields.get("__imports__", []))):
-            return "%s:async-abi-on-sync-func:%s" % (lang, pre)
-        if field.startswith("cabi_post_["):
-            return "%s:unknown-export:cabi_post_%s" % (lang, re.match(r"cabi_post_((?:\[[a-z-]+\])*)", field).group(1))
+        m = ASYNC_PRE.match(field)
+        if m and (dir_, module, field[len(m.group(1)):]) in names:
+            return "%s:async-abi-on-sync-func" % lang
+        pm = PAYLOAD.match(field) if dir_ == "I" else None
+        if pm:
+            # a future/stream intrinsic: which part of  [<kind>-<operation>-<index>]<function>  is not the world's?
+            if pm.group(3) not in PAYLOAD_OPS:
+                return "%s:payload-intrinsic:unknown-operation:%s" % (lang, pm.group(3))
+            fname = pm.group(5)
+            known_fn = (("I", module, fname) in names) or (("I", module, "[task-return]" + fname) in names)
+            return "%s:payload-intrinsic:%s" % (lang, "index-not-a-payload-position-of-the-function" if known_fn else "function-name")
         if dir_ == "I":
-            return "%s:unknown-import:%s%s" % (lang, pre, "" if module not in ("$root", "[export]$root") else "@" + module)
-        return "%s:unknown-export:%s" % (lang, pre or "plain")
+            if module in ("$root", "[export]$root"):
+                mc = module
+            elif module in w["_modules"]:
+                mc = "[export]<iface>" if module.startswith("[export]") else "<iface>"
+            else:
+                mc = "<not-in-world>" + module
+            return "%s:unknown-import:%s:%s" % (lang, mc, _shape(field))
+        return "%s:unknown-export:%s" % (lang, _shape(field))
     if k == "sig":
-        field = f[2]
-        pre = re.match(r"((?:\[[a-z-]+\])*)", field).group(1)
-        pre = re.sub(r"\d+", "N", pre)
-        return "%s:signature:%s%s" % (lang, "E" if f[0] == "E" else "I", pre or ":func")
+        return "%s:signature:%s:%s" % (lang, f[0], _shape(f[2]))
     if k == "nosig":
-        return "%s:scraper-no-signature" % lang
+        return "%s:scraper:no-signature" % lang
     if k == "needs":
-        return "%s:missing-callback" % lang
+        return "%s:missing-callback:%s" % (lang, _shape(f[2]))
     if k == "missing":
-        return "%s:missing-export" % lang
+        if any(a in declared_exports for a in ("[async-lift]" + f[0], "[async-lift-stackful]" + f[0])):
+            return "%s:async-abi-on-sync-func" % lang
+        return "%s:missing-export:%s" % (lang, _shape(f[0]))
     if k == "dup":
-        return "%s:duplicate-export" % lang
+        return "%s:duplicate-export:%s" % (lang, _shape(f[0]))
     return "%s:%s" % (lang, k)
+
+
+def describe(err):
+    k, f = err["kind"], err["fields"]
+    if k == "unknown":
+        return ("import %s::%s (%s) is no item of the world: unresolvable for the component encoder" % (f[1], f[2], f[3])) if f[0] == "I" \
+            else ("export %s (%s) is no item of the world: silently ignored by the component encoder" % (f[2], f[3]))
+    if k == "sig":
+        return "%s %s%s declared with core signature %s, the canonical ABI gives %s" % (
+            "import" if f[0] == "I" else "export", (f[1] + "::") if f[0] == "I" else "", f[2], f[3], f[4])
+    if k == "nosig":
+        return "scraper could not read the signature of %s %s::%s" % (f[0], f[1], f[2])
+    if k == "needs":
+        return "export %s declared without its %s" % (f[2], f[4])
+    if k == "missing":
+        return "required export missing: none of %s is declared" % (f,)
+    if k == "dup":
+        return "export %s declared twice" % f[0]
+    return str(err)
 
 
 # ------------------------------------------------------------------------------------------ pipeline
@@ -256,6 +301,8 @@ def world_tables(exe_r, exe_m, worlds):
         w["expected"], w["builtins"] = parse_items(p[0]), parse_items(p[1])
         w["required"] = sorted(p[2].split(FS)) if p[2] else []
         w["unambiguous"] = p[3] == "1"
+        w["_names"] = set(x[:3] for x in w["expected"]) | set(x[:3] for x in w["builtins"])
+        w["_modules"] = set(x[1] for x in w["expected"] if x[0] == "I")
         # world items must coincide exactly; the world-independent built-ins of the Coq table have no wit-parser
         # API except cabi_realloc/_initialize (wasm_export_name), which must be among them
         E, O, B = set(w["expected"]), set(w["oracle"]), set(w["builtins"])
@@ -321,3 +368,266 @@ def run_jobs(exe_r, exe_m, jobs):
             continue
         j["errors"] = parse_errors(r)
     return jobs
+
+
+def encoder_verdict(exe_r, j):
+    """The real ComponentEncoder on a synthetic module with exactly the scraped imports/exports."""
+    ds = [d for d in j["decls"] if d["sig"] != "?"]
+    r = vf.run_filter([exe_r, "encode"], [j["w"]["world"] + SEP + j["w"]["src"] + SEP + decl_line(ds)], shards=1)[0]
+    p = r.split(SEP)
+    if p[0] == "accept":
+        ign = [x for x in p[1].split(FS) if x]
+        return {"accepted": True, "ignored_exports": ign, "info": p[2] if len(p) > 2 else ""}
+    return {"accepted": False, "message": r[len("reject "):][:400]}
+
+
+def verdict_text(v):
+    if v["accepted"]:
+        return "real ComponentEncoder: accepts the module" + (
+            ", exports silently ignored: %s" % v["ignored_exports"] if v["ignored_exports"] else ", ignores no export") + " (%s)" % v["info"]
+    return "real ComponentEncoder: REJECTS the module: " + v["message"]
+
+
+def job_keys(j):
+    """{key: [errors]} of one checked job."""
+    out = {}
+    exps = set(d["field"] for d in j["decls"] if d["dir"] == "E")
+    for e in j.get("errors", []):
+        out.setdefault(classify(j["lang"], e, j["w"], exps), []).append(e)
+    return out
+
+
+def one_case(exe_r, exe_m, lang, opts, world, text_or_src):
+    """Full pipeline for one (world, backend, options): returns (job, None) or (None, reason)."""
+    src = text_or_src if text_or_src.startswith("@") else text_or_src.replace("\n", US)
+    w = {"name": "case", "src": src, "text": None, "cfg": {"async": False, "error_context": False}, "origin": "replay", "world": world}
+    probs = world_tables(exe_r, exe_m, [w])
+    if w.get("skip"):
+        return None, w["skip"]
+    j = {"w": w, "lang": lang, "variant": "", "opts": opts}
+    run_jobs(exe_r, exe_m, [j])
+    if j["status"] != "ok":
+        return None, "generator: %s %s" % (j["status"], j.get("msg", ""))
+    return j, None
+
+
+def shrink_world(exe_r, exe_m, j, key, max_steps=120):
+    """Delta-debug the WIT text line-wise, keeping `key` reproducible through the whole pipeline."""
+    text = j["w"].get("text")
+    if not text:
+        return None
+    lines = text.split("\n")
+
+    def fails(ls):
+        jj, why = one_case(exe_r, exe_m, j["lang"], j["opts"], j["w"]["world"], "\n".join(ls))
+        if jj is None or key not in job_keys(jj):
+            return False
+        # keep the world encodable by wit-component (e.g. no record emptied by the shrinker)
+        r = vf.run_filter([exe_r, "encode"], [jj["w"]["world"] + SEP + jj["w"]["src"] + SEP], shards=1)[0]
+        return "custom section" not in r
+    small = vf.shrink_list(lines, fails, max_steps=max_steps)
+    return "\n".join(small)
+
+
+def run(ctx):
+    quick = ctx.tier == "quick"
+    ctx.assumptions += [
+        "spec: Valid/CoreDecls.v `expected` transcribes the component model's LEGACY core name mangling (wit-parser 0.257 wasm_import_name / wasm_export_name / task_return_import / ManglingAndAbi::for_func; wit-component 0.257 validation.rs for the world-independent built-ins and for which exports are required); it is re-tied to those functions and to wit-component's dummy_module on every world explored",
+        "core signatures of WIT functions are taken from wit-parser's wasm_signature (wasm32: Pointer/Length -> i32, PointerOrI64 -> i64); signatures of intrinsics are the fixed ones of validation.rs",
+        "scrapers (lib/c13_<lang>.py) are trusted regex translators of generated text; each counts the attributes it could not parse and reports them instead of dropping them; an import counts as 'actually referenced' when its source identifier occurs somewhere besides its declaration",
+        "backend option variants and unsupported-feature exclusions are transcribed from crates/test/src/<lang>.rs (default_bindgen_args, default_bindgen_args_for_codegen, codegen_test_variants, should_fail_verify)",
+    ]
+    ctx.proof_leg(["theories/Props/C13.vo"], ["Props.C13"], THEOREMS)
+    ok1, exe_r, log1, ok2, exe_m, log2 = build()
+    if not ok1:
+        ctx.tie_broken("tie", "harness build against the repository failed:\n" + log1[-3000:]); return
+    if not ok2:
+        ctx.tie_broken("tie", "model extraction/driver build failed:\n" + log2[-3000:]); return
+
+    # ---- worlds: corpus first, then tests/codegen, then random
+    corpus = load_corpus()
+    codegen = codegen_worlds()
+    nrand = 48 if quick else 1500
+    rnd, rejected = random_worlds(ctx.rng.fork(1), nrand)
+    worlds = corpus + codegen + rnd
+    problems = world_tables(exe_r, exe_m, worlds)
+    for w, p in problems[:5]:
+        ctx.tie_broken("oracle-tie", "world %s (%s): %s\n%s" % (w["name"], w["origin"], p, (w.get("text") or w["src"])[:1500]))
+    live = [w for w in worlds if not w.get("skip")]
+    skipped_worlds = [(w["name"], w["skip"][:120]) for w in worlds if w.get("skip")]
+
+    # ---- jobs.  quick: every variant on corpus + codegen worlds is too much for 1-3 min, so the non-default variants
+    # run on a seeded third of the codegen worlds (always on corpus worlds); thorough: everything.
+    pick = ctx.rng.fork(2)
+    chosen = {}
+
+    def variants_of(w, lang):
+        allv = [v for v, _ in BACKENDS[lang]["variants"]]
+        if not quick or w["origin"] == "corpus":
+            return allv
+        k = (w["name"], lang)
+        if k not in chosen:
+            extra = [v for v in allv if v]
+            keep = [""]
+            if extra:
+                if w["origin"] == "codegen":
+                    keep += [v for v in extra if v == "async" and pick.chance(1, 2)] + [v for v in extra if v != "async" and pick.chance(1, 4)]
+                else:
+                    keep += [pick.choice(extra)]
+            chosen[k] = keep
+        return chosen[k]
+    jobs = jobs_for(live, variants_of=variants_of)
+    run_jobs(exe_r, exe_m, jobs)
+
+    # ---- translator health (tie): generator failures are another property's business (C16) but must not hollow out the run
+    per_lang = {l: {"jobs": 0, "generated": 0, "gen_failed": 0, "decls": 0, "imports": 0, "exports": 0, "unreferenced_imports": 0,
+                    "clean": 0, "with_errors": 0} for l in ORDER}
+    gen_fail_samples = []
+    for j in jobs:
+        s = per_lang[j["lang"]]
+        s["jobs"] += 1
+        if j["status"] != "ok":
+            s["gen_failed"] += 1
+            if len(gen_fail_samples) < 8:
+                gen_fail_samples.append("%s %s %s: %s %s" % (j["lang"], j["opts"], j["w"]["name"], j["status"], j.get("msg", "")[:160]))
+            continue
+        s["generated"] += 1
+        s["decls"] += len(j["decls"])
+        s["imports"] += sum(1 for d in j["decls"] if d["dir"] == "I")
+        s["exports"] += sum(1 for d in j["decls"] if d["dir"] == "E")
+        s["unreferenced_imports"] += sum(1 for d in j["all_decls"] if not d["referenced"])
+        s["with_errors" if j["errors"] else "clean"] += 1
+        nfun_i = sum(1 for x in j["w"]["oracle"] if x[0] == "I" and not x[2].startswith("[")) 
+        nreq = len(j["w"]["required"])
+        if (nreq and not any(d["dir"] == "E" for d in j["decls"])) or (nfun_i and not any(d["dir"] == "I" for d in j["all_decls"])):
+            ctx.tie_broken("translator", "scraper for %s found no %s declarations for world %s (%s) although the world has %d exported / %d imported functions" % (
+                j["lang"], "export" if nreq else "import", j["w"]["name"], j["opts"], nreq, nfun_i))
+    for l in ORDER:
+        s = per_lang[l]
+        if s["jobs"] and s["generated"] * 2 < s["jobs"]:
+            ctx.tie_broken("translator", "backend %s failed to generate for %d of %d worlds; first: %s" % (l, s["gen_failed"], s["jobs"], gen_fail_samples[:2]))
+        if s["jobs"] == 0:
+            ctx.tie_broken("translator", "no job ran for backend %s" % l)
+
+    # ---- search leg: the verified checker's findings on the REAL outputs, grouped by class
+    classes = {}
+    for j in jobs:
+        if j["status"] != "ok":
+            continue
+        for key, errs in job_keys(j).items():
+            c = classes.setdefault(key, {"n_cases": 0, "n_errors": 0, "best": None, "errs": None})
+            c["n_cases"] += 1
+            c["n_errors"] += len(errs)
+            size = len(j["w"].get("text") or "x" * 100000)
+            if c["best"] is None or size < c["best_size"]:
+                c["best"], c["best_size"], c["errs"] = j, size, errs
+    disagreements = 0
+    checked_against_encoder = 0
+    class_report = {}
+    new_budget = 3
+    for key in sorted(classes):
+        c = classes[key]
+        j, errs = c["best"], c["errs"]
+        v = encoder_verdict(exe_r, j)
+        checked_against_encoder += 1
+        encoder_sees_it = (not v["accepted"]) or bool(v["ignored_exports"]) or "with_dtor" in v.get("info", "") and _dtor_gap(v)
+        if not encoder_sees_it:
+            disagreements += 1
+        wit = j["w"].get("text") or j["w"]["src"]
+        if not ctx.known.is_known(ctx.prop, key) and new_budget > 0 and j["w"].get("text"):
+            new_budget -= 1
+            small = shrink_world(exe_r, exe_m, j, key)
+            if small:
+                jj, _ = one_case(exe_r, exe_m, j["lang"], j["opts"], j["w"]["world"], small)
+                if jj is not None and key in job_keys(jj):
+                    wit, errs, v = small, job_keys(jj)[key], encoder_verdict(exe_r, jj)
+        what = "%s [%s]: %s; %s  (%d cases / %d declarations in this run)" % (
+            j["lang"], j["opts"], "; ".join(describe(e) for e in errs[:3]), verdict_text(v), c["n_cases"], c["n_errors"])
+        class_report[key] = {"cases": c["n_cases"], "declarations": c["n_errors"], "example": what[:600]}
+        ctx.violation(key, what, {"lang": j["lang"], "opts": j["opts"], "world": j["w"]["world"], "wit": wit, "key": key,
+                                   "origin": j["w"]["origin"] + ":" + j["w"]["name"]})
+
+    # ---- agreement sample: clean cases must also satisfy the real encoder (accept, nothing ignored)
+    clean = [j for j in jobs if j["status"] == "ok" and not j["errors"] and j["decls"] and all(d["sig"] != "?" for d in j["decls"])]
+    samp_n = 64 if quick else 1200
+    sr = ctx.rng.fork(3)
+    sample = clean if len(clean) <= samp_n else [clean[sr.below(len(clean))] for _ in range(samp_n)]
+    lines = [j["w"]["world"] + SEP + j["w"]["src"] + SEP + decl_line(j["decls"]) for j in sample]
+    enc = vf.run_filter([exe_r, "encode"], lines) if lines else []
+    enc_bad = []
+    for j, r in zip(sample, enc):
+        p = r.split(SEP)
+        checked_against_encoder += 1
+        if p[0] != "accept" or (len(p) > 1 and p[1]):
+            enc_bad.append((j, r))
+    # a module the verified checker passes but the real encoder rejects / partly ignores = the Coq table is too permissive
+    # (a world wit-component itself cannot encode, e.g. > 32 flags or an empty record, says nothing about the declarations)
+    allowed_reject = re.compile(r"decoding custom section component-type")
+    for j, r in enc_bad[:3]:
+        disagreements += 1
+        if not allowed_reject.search(r):
+            ctx.tie_broken("encoder-agreement", "checker passes but the real ComponentEncoder says %r for %s %s world %s" % (
+                r.replace(SEP, " | ").replace(FS, ", ")[:400], j["lang"], j["opts"], j["w"]["name"]))
+
+    ndecl = sum(len(j["decls"]) for j in jobs if j["status"] == "ok")
+    nontriv = set()
+    for j in jobs:
+        if j["status"] == "ok" and j["decls"]:
+            nontriv.add(hashlib.sha256((j["lang"] + "|" + decl_line(j["decls"])).encode()).hexdigest())
+    feat_hist = {}
+    for w in rnd:
+        for f in w["features"]:
+            feat_hist[f] = feat_hist.get(f, 0) + 1
+    ctx.coverage.update({
+        "programs": sum(1 for j in jobs if j["status"] == "ok"),
+        "evaluations": ndecl,
+        "distinct_nontrivial": len(nontriv),
+        "disagreements_checked": checked_against_encoder,
+        "rule": "program = one generated binding (world x backend x option variant); evaluation = one scraped core import/export declaration judged by the extracted verified checker; non-trivial = the binding declares at least one core import/export, distinct = distinct (backend, declaration list); worlds = corpus/C13.txt + every tests/codegen entry + seeded witgen worlds (features drawn from resources/futures/streams/async/maps/fixed within each backend's supported set), minus should_fail_verify exclusions; quick tier runs non-default option variants on a seeded subset",
+        "samples": [{"lang": j["lang"], "opts": j["opts"], "world": j["w"]["name"], "decls": [GS.join((d["dir"], d["module"], d["field"], d["sig"])).replace(GS, " ") for d in j["decls"][:4]]}
+                    for j in [x for x in jobs if x["status"] == "ok" and x["decls"]][:3]],
+        "traces_validated_against_impl": len(live),
+        "oracle_tie": {"worlds": len(live), "table_items_compared": sum(len(w["expected"]) for w in live),
+                       "dummy_module_items_checked": sum(len(w["dummy"]) for w in live), "problems": len(problems)},
+        "encoder_cross_check": {"classes_examined": len(classes), "clean_cases_sampled": len(sample), "clean_cases_rejected_or_ignored": len(enc_bad),
+                                "disagreements": disagreements},
+        "finding_classes": class_report,
+        "distribution": {"worlds": {"corpus": len(corpus), "codegen": len(codegen), "random": len(rnd), "random_rejected_by_wit_parser": rejected,
+                                    "skipped": skipped_worlds[:10]},
+                         "random_world_features": feat_hist, "per_backend": per_lang, "generator_failures": gen_fail_samples},
+    })
+
+
+def _dtor_gap(v):
+    m = re.search(r"resources=(\d+) with_dtor=(\d+)", v.get("info", ""))
+    return bool(m) and int(m.group(1)) > int(m.group(2))
+
+
+def replay(ctx, path):
+    obj = json.load(open(path))
+    r = obj["replay"]
+    ok1, exe_r, log1, ok2, exe_m, log2 = build()
+    if not (ok1 and ok2):
+        print("build failed"); return 1
+    j, why = one_case(exe_r, exe_m, r["lang"], r["opts"], r.get("world", ""), r["wit"])
+    if j is None:
+        print("could not run the case:", why); return 1
+    keys = job_keys(j)
+    print("backend:", r["lang"], "options:", r["opts"])
+    print("world:\n" + (r["wit"] if not r["wit"].startswith("@") else r["wit"]))
+    for k, errs in keys.items():
+        for e in errs[:5]:
+            d = next((d for d in j["decls"] if d["field"] == (e["fields"][2] if len(e["fields"]) > 2 else "")), None)
+            print("  [%s] %s%s" % (k, describe(e), (" — %s:%d `%s`" % (d["file"], d["line"], d["ident"])) if d else ""))
+    print("encoder:", verdict_text(encoder_verdict(exe_r, j)))
+    hit = r["key"] in keys
+    print("verdict:", "class %s reproduced" % r["key"] if hit else "class %s NOT reproduced (other classes: %s)" % (r["key"], sorted(keys)))
+    return 1 if hit else 0
+
+
+META = {
+    "engine": "coq+scrape",
+    "technique": "translation validation: Coq-verified checker (soundness + completeness proved) over a Coq table of the component model's legacy core names, run on declarations scraped from every generated binding; table tied to wit-parser/wit-component on every world; findings cross-examined by the real ComponentEncoder",
+    "text": "For every world explored (tests/codegen + seeded random worlds with resources, async functions, futures and streams) and each of the C, C++, C#, Go, MoonBit, D and Rust generators with the option variants of crates/test, every core import/export the generated code declares (and references) is checked, by a checker proved sound and complete in Coq, to be an item the component model assigns to the world with the canonical core signature, every required export to be present, async-lift exports to have their callback, and no export name to repeat. Per-output validation, not a proof over all worlds.",
+    "note": "Trusted: Coq kernel; extraction + ocaml/coredecls_driver.ml (token parser/printers); the per-language regex scrapers; harness/crates/declscrape (world dump); wit-parser's wasm_signature for flattened signatures; the transcription of the legacy mangling in Valid/CoreDecls.v (re-tied each run to wasm_import_name/wasm_export_name/dummy_module). Print Assumptions: closed under the global context.",
+}
